@@ -60,6 +60,7 @@ pub fn run_seq(case: &Case, dir: PathBuf) -> Outcome {
     crate::hooks::set_mode(crate::hooks::MODE_SEQ);
     crate::hooks::set_rotation_threshold(case.cfg.rotation_threshold);
     let mut ex = Exec::new(&case.cfg, dir);
+    ex.check_option_behaviour = case.prop == "C16";
     let mut violation = None;
     let mut hash = 0u64;
     if let Err(v) = ex.open() {
@@ -339,7 +340,7 @@ fn gen_extra(r: &mut Rng) -> ExtraOpts {
 
 pub fn gen_c16_opts(r: &mut Rng) -> KsOpts {
     let mut o = crate::gen::gen_ks_opts(r);
-    o.max_memtable = *r.pick(&[0u64, 1, 1024, 1 << 20, u64::MAX, 1 << 40]);
+    o.max_memtable = *r.pick(&[0u64, 1, 64, 1024, 1 << 20, u64::MAX, 1 << 40]);
     o.manual_persist = r.chance(1, 3);
     if r.chance(1, 4) {
         o.strategy = Strategy::Fifo { limit: *r.pick(&[1u64, 1 << 30, u64::MAX]) };
